@@ -35,6 +35,8 @@ def gen_case(rng):
             target = 1
     else:
         target = gen.tree(rng, 2, PROF, root_map=True)
+    if kind in ("merge_map", "replace_map", "merge_str", "replace_str", "chain") and rng.chance(1, 8):
+        target = None          # the referenced key exists and holds null: as if "x: null" were written in place
     local = gen.tree(rng, 1, LPROF, root_map=True)
     tdoc = {"other": 1, "name": "T"}
     node = tdoc
